@@ -663,3 +663,7 @@ def run(ctx):
     # "the reported code and reason are the peer's": what onCloseFrame remembers of each close frame (and nothing of an earlier or refused one)
     from .c02 import rule_close_payload
     rule_close_payload(ctx, "C05.8-reported-code-and-reason-are-the-peers")
+    # "reaches closed within the configured close/drop timeouts": every timer is armed with its own timeout, under the test of that timeout,
+    # with its own handler (table shared with C17.1)
+    from .c17 import rule_table as _timer_table_rule
+    _timer_table_rule(ctx, "C05.9-close-and-drop-timers-armed-with-their-own-timeouts")
